@@ -411,3 +411,6 @@ func (p *Path) Extract(tuple *Sym, i int) *Sym {
 	}
 	return p.st.canon[ckey{base: tuple, idx: i, kind: KExtract}]
 }
+
+// ParamSym returns the sym of a root parameter.
+func (p *Path) ParamSym(prm *ssa.Parameter) *Sym { return p.st.params[prm] }
